@@ -1,6 +1,7 @@
 (* Lemmas for C18 (Model/TcAntispoof.v, Model/AntispoofMgr.v). *)
-From Coq Require Import ZArith NArith List Bool Lia ZifyN ZifyNat ZifyBool.
-From Verif Require Import Base.Word Base.Check Model.TcQos Model.TcAntispoof Model.AntispoofMgr Model.TcAntispoofSpec.
+From Coq Require Import ZArith NArith List Bool Lia ZifyN ZifyNat ZifyBool Sorted.
+From Verif Require Import Base.Word Base.Check Model.TcQos Model.TcAntispoofC Model.TcAntispoof Model.AntispoofMgr Model.TcAntispoofSpec
+  Proofs.TcAntispoofCProofs.
 Import ListNotations.
 Local Open Scope N_scope.
 
@@ -164,6 +165,17 @@ Proof.
   destruct (_ =? MODE_DISABLED); reflexivity.
 Qed.
 
+Theorem truncated_ipv6_forwards : forall m f, (length f < 54)%nat -> rd f 12 2 = Some [134; 221] -> forwards m f.
+Proof.
+  intros m f Hl Hp. unfold forwards, verdict_of.
+  destruct (Nat.ltb (length f) 14) eqn:El; [apply Nat.ltb_lt in El; rewrite short_frame_forwards by exact El; reflexivity|].
+  apply Nat.ltb_ge in El. destruct (prog_total f El) as (mac & proto' & Hmac & Hproto). rewrite Hp in Hproto. inversion Hproto; subst proto'.
+  unfold antispoof_prog. replace (Nat.ltb (length f) 14) with false by (symmetry; apply Nat.ltb_ge; lia).
+  rewrite Hmac, Hp. cbn [bytes_eqb N.eqb Pos.eqb andb].
+  replace (Nat.ltb (length f) 54) with true by (symmetry; apply Nat.ltb_lt; lia).
+  destruct (_ =? MODE_DISABLED); reflexivity.
+Qed.
+
 (* the program never reads outside the frame *)
 Theorem never_oob : forall m f, verdict_of m f <> AOob.
 Proof.
@@ -270,6 +282,7 @@ Proof.
   assert (Hrev : [d; c; b; a] = [a; b; c; d]) by (symmetry; apply bytes_eqb_eq; exact Hpal).
   unfold after. cbn [fold_left step]. rewrite Hmac. cbn [length N.of_nat Pos.of_succ_nat Pos.succ N.eqb Pos.eqb negb].
   cbn [to4 length N.of_nat Pos.of_succ_nat Pos.succ N.eqb Pos.eqb rev app fst]. rewrite Hmode.
+  rewrite <- !(c_mac_key_go mac). change (c_mac_key mac) with (mac_key mac).
   set (v := mk_binding [d; c; b; a] zero16 1 0 MODE_STRICT).
   set (m' := maps (set_bind s (m_put (a_bind (maps s)) (mac_key mac) v))).
   assert (Hb : binding_of m' mac = Some v) by (unfold binding_of, m'; cbn [maps set_bind a_bind]; apply m_get_put).
@@ -303,6 +316,7 @@ Proof.
   do 16 (destruct ip6 as [|? ip6]; [discriminate|]). destruct ip6; [|discriminate].
   unfold after. cbn [fold_left step]. rewrite Hmac. cbn [length N.of_nat Pos.of_succ_nat Pos.succ N.eqb Pos.eqb negb].
   cbn [to4 length N.of_nat Pos.of_succ_nat Pos.succ N.eqb Pos.eqb rev app fst].
+  rewrite <- !(c_mac_key_go mac). change (c_mac_key mac) with (mac_key mac).
   cbn [maps set_bind a_bind a_cfg a_ranges mgr_mode]. rewrite m_get_put. rewrite Hmode.
   cbn [to16 length N.of_nat Pos.of_succ_nat Pos.succ N.eqb Pos.eqb].
   match goal with |- forwards {| a_cfg := _; a_bind := m_put ?mm ?k ?v; a_ranges := _ |} _ =>
@@ -310,4 +324,358 @@ Proof.
   assert (Hb : binding_of m' mac = Some v2) by (unfold binding_of, m'; cbn [a_bind]; apply m_get_put).
   assert (He : eff_mode m' mac = MODE_STRICT) by (unfold eff_mode; rewrite Hb; reflexivity).
   apply (strict_iff_equal_v6 m' f mac _ Hf He). exists v2. repeat split; [exact Hb|cbn; discriminate].
+Qed.
+
+(* ---- the binding written for a MAC is the one the program finds for frames from that MAC, and for no other:
+   Go key derivation (manager) = C key derivation (program), for every MAC *)
+Theorem mac_key_c_equals_go : forall mac, mac_key mac = go_mac_key mac.
+Proof. intros mac. unfold mac_key. apply c_mac_key_go. Qed.
+
+Theorem mac_key_is_mac48 : forall mac, length mac = 6%nat -> wf_bytes mac -> mac_key mac = rev mac ++ [0; 0].
+Proof. intros mac Hl Hw. unfold mac_key. apply c_mac_key_wf; assumption. Qed.
+
+Theorem mac_key_injective : forall a b,
+  length a = 6%nat -> length b = 6%nat -> wf_bytes a -> wf_bytes b -> mac_key a = mac_key b -> a = b.
+Proof. intros a b. unfold mac_key. apply c_mac_key_injective. Qed.
+
+Lemma m_get_put_other m : forall k k' v, k <> k' -> m_get (m_put m k v) k' = m_get m k'.
+Proof.
+  induction m as [|[k0 v0] m IH]; intros k k' v Hne; cbn [m_put m_get].
+  - rewrite (bytes_eqb_neq k' k) by congruence. reflexivity.
+  - destruct (bytes_eqb k k0) eqn:E.
+    + apply bytes_eqb_eq in E. subst k0. cbn [m_get]. rewrite (bytes_eqb_neq k' k) by congruence. reflexivity.
+    + destruct (lex_leb k k0); cbn [m_get].
+      * rewrite (bytes_eqb_neq k' k) by congruence. reflexivity.
+      * destruct (bytes_eqb k' k0); [reflexivity|]. apply IH. exact Hne.
+Qed.
+
+Theorem add_binding_found_for_its_mac : forall s mac ip, length mac = 6%nat ->
+  binding_of (maps (after s [AddBinding mac ip])) mac <> None /\
+  binding_of (maps (after s [AddBindingV6 mac ip])) mac <> None.
+Proof.
+  intros s mac ip Hmac. unfold after. cbn [fold_left step]. rewrite Hmac.
+  cbn [length N.of_nat Pos.of_succ_nat Pos.succ N.eqb Pos.eqb negb fst].
+  rewrite <- !(c_mac_key_go mac). change (c_mac_key mac) with (mac_key mac).
+  unfold binding_of. cbn [maps set_bind a_bind]. rewrite !m_get_put. split; discriminate.
+Qed.
+
+(* ... and for no other MAC: a control-plane call for [mac] leaves what every other sender's frames are judged
+   against untouched *)
+Theorem add_binding_other_mac_untouched : forall s mac mac' ip,
+  length mac = 6%nat -> length mac' = 6%nat -> wf_bytes mac -> wf_bytes mac' -> mac' <> mac ->
+  binding_of (maps (after s [AddBinding mac ip])) mac' = binding_of (maps s) mac' /\
+  binding_of (maps (after s [AddBindingV6 mac ip])) mac' = binding_of (maps s) mac'.
+Proof.
+  intros s mac mac' ip Hmac Hmac' Hw Hw' Hne.
+  assert (Hk : mac_key mac <> mac_key mac') by (intros E; apply Hne; symmetry; apply mac_key_injective; assumption).
+  unfold after. cbn [fold_left step]. rewrite Hmac.
+  cbn [length N.of_nat Pos.of_succ_nat Pos.succ N.eqb Pos.eqb negb fst].
+  rewrite <- !(c_mac_key_go mac). change (c_mac_key mac) with (mac_key mac).
+  unfold binding_of. cbn [maps set_bind a_bind]. rewrite !m_get_put_other by exact Hk. split; reflexivity.
+Qed.
+
+(* non-vacuity: a MAC with the top bit set in every octet is found by the program after the manager's AddBinding *)
+Definition mac_hi : bytes := [130; 145; 162; 179; 196; 213].
+Example add_binding_high_octets :
+  wf_bytes mac_hi /\ length mac_hi = 6%nat /\
+  mac_key mac_hi = [213; 196; 179; 162; 145; 130; 0; 0] /\
+  forwards (maps (after init [AddBinding mac_hi [10;1;1;10]]))
+           ([255;255;255;255;255;255] ++ mac_hi ++ [8;0] ++ [69;0;0;40;0;0;0;0;64;17;0;0] ++ [10;1;1;10] ++ [192;0;2;1]) /\
+  drops (maps (after init [AddBinding mac_hi [10;1;1;10]]))
+        ([255;255;255;255;255;255] ++ mac_hi ++ [8;0] ++ [69;0;0;40;0;0;0;0;64;17;0;0] ++ [10;1;1;11] ++ [192;0;2;1]).
+Proof.
+  split; [repeat constructor|]. repeat split; vm_compute; reflexivity.
+Qed.
+
+(* ---- removal: the kernel hash map holds one entry per key; the Model's association list keeps that invariant *)
+Definition keys_of (m : kvmap) : list bytes := map fst m.
+
+Lemma m_get_none_notin m k : ~ In k (keys_of m) -> m_get m k = None.
+Proof.
+  induction m as [|[k0 v0] m IH]; intros H; [reflexivity|]. cbn [m_get]. cbn in H.
+  destruct (bytes_eqb k k0) eqn:E; [apply bytes_eqb_eq in E; subst; exfalso; apply H; left; reflexivity|].
+  apply IH. intros Hin. apply H. right. exact Hin.
+Qed.
+
+Definition klt (a b : bytes) : Prop := lex_leb a b = true /\ a <> b.
+Definition ksorted (m : kvmap) : Prop := StronglySorted klt (keys_of m).
+
+Lemma klt_trans a b c : klt a b -> klt b c -> klt a c.
+Proof.
+  intros [H1 N1] [H2 N2]. split; [exact (lex_leb_trans a b c H1 H2)|].
+  intros E. subst c. apply N1. apply lex_leb_antisym; assumption.
+Qed.
+
+Lemma keys_m_put m : forall k v x, In x (keys_of (m_put m k v)) -> x = k \/ In x (keys_of m).
+Proof.
+  induction m as [|[k0 v0] m IH]; intros k v x H; cbn [m_put] in H.
+  - cbn in H. destruct H as [H|[]]. left. symmetry. exact H.
+  - destruct (bytes_eqb k k0) eqn:E.
+    + apply bytes_eqb_eq in E. subst k0. cbn in H. cbn. destruct H as [H|H]; [left; symmetry; exact H|right; right; exact H].
+    + destruct (lex_leb k k0).
+      * cbn in H. cbn. destruct H as [H|[H|H]]; [left; symmetry; exact H|right; left; exact H|right; right; exact H].
+      * cbn in H. cbn. destruct H as [H|H]; [right; left; exact H|].
+        destruct (IH k v x H) as [H'|H']; [left; exact H'|right; right; exact H'].
+Qed.
+
+Lemma ksorted_m_put m : forall k v, ksorted m -> ksorted (m_put m k v).
+Proof.
+  unfold ksorted. induction m as [|[k0 v0] m IH]; intros k v H; cbn [m_put].
+  - cbn. constructor; constructor.
+  - cbn [keys_of map fst] in H. inversion H as [|? ? Hs Hf]; subst. destruct (bytes_eqb k k0) eqn:E.
+    + apply bytes_eqb_eq in E. subst k0. cbn. constructor; assumption.
+    + assert (Hne : k <> k0) by (intros X; subst; rewrite bytes_eqb_refl in E; discriminate).
+      destruct (lex_leb k k0) eqn:L.
+      * cbn. constructor; [exact H|]. constructor; [split; assumption|].
+        rewrite Forall_forall in *. intros x Hx. apply (klt_trans k k0 x); [split; assumption|apply Hf; exact Hx].
+      * assert (L' : lex_leb k0 k = true) by (destruct (lex_leb_total k k0) as [X|X]; [rewrite X in L; discriminate|exact X]).
+        cbn. constructor; [apply IH; exact Hs|].
+        rewrite Forall_forall in *. intros x Hx. destruct (keys_m_put m k v x Hx) as [->|Hin].
+        -- split; [exact L'|congruence].
+        -- apply Hf. exact Hin.
+Qed.
+
+Lemma keys_m_del m : forall k x, In x (keys_of (m_del m k)) -> In x (keys_of m).
+Proof.
+  induction m as [|[k0 v0] m IH]; intros k x H; cbn [m_del] in H; [exact H|].
+  destruct (bytes_eqb k k0); [right; exact H|]. cbn in H. cbn. destruct H as [H|H]; [left; exact H|right; exact (IH k x H)].
+Qed.
+
+Lemma ksorted_m_del m : forall k, ksorted m -> ksorted (m_del m k).
+Proof.
+  unfold ksorted. induction m as [|[k0 v0] m IH]; intros k H; cbn [m_del]; [exact H|].
+  cbn [keys_of map fst] in H. inversion H as [|? ? Hs Hf]; subst.
+  destruct (bytes_eqb k k0); [exact Hs|]. cbn. constructor; [apply IH; exact Hs|].
+  rewrite Forall_forall in *. intros x Hx. apply Hf. exact (keys_m_del m k x Hx).
+Qed.
+
+Lemma m_get_del_same m : forall k, ksorted m -> m_get (m_del m k) k = None.
+Proof.
+  unfold ksorted. induction m as [|[k0 v0] m IH]; intros k H; cbn [m_del]; [reflexivity|].
+  cbn [keys_of map fst] in H. inversion H as [|? ? Hs Hf]; subst.
+  destruct (bytes_eqb k k0) eqn:E.
+  - apply bytes_eqb_eq in E. subst k0. apply m_get_none_notin. intros Hin.
+    rewrite Forall_forall in Hf. destruct (Hf k Hin) as [_ N]. apply N. reflexivity.
+  - cbn [m_get]. rewrite E. apply IH. exact Hs.
+Qed.
+
+Lemma m_get_del_other m : forall k k', k <> k' -> m_get (m_del m k) k' = m_get m k'.
+Proof.
+  induction m as [|[k0 v0] m IH]; intros k k' Hne; cbn [m_del]; [reflexivity|].
+  destruct (bytes_eqb k k0) eqn:E.
+  - apply bytes_eqb_eq in E. subst k0. cbn [m_get]. rewrite (bytes_eqb_neq k' k) by congruence. reflexivity.
+  - cbn [m_get]. destruct (bytes_eqb k' k0); [reflexivity|]. apply IH. exact Hne.
+Qed.
+
+Lemma step_ksorted s o : ksorted (a_bind (maps s)) -> ksorted (a_bind (maps (fst (fst (step s o))))).
+Proof.
+  intros H. destruct o; cbn [step].
+  - exact H.
+  - destruct (negb _); [exact H|]. cbn [fst maps set_bind a_bind]. apply ksorted_m_put. exact H.
+  - destruct (negb _); [exact H|]. cbn [fst maps set_bind a_bind]. apply ksorted_m_put. exact H.
+  - destruct (negb _); [exact H|]. cbn [fst maps set_bind a_bind]. apply ksorted_m_del. exact H.
+  - exact H.
+  - destruct (to4 ip); [|exact H]. destruct (32 <? ones); exact H.
+  - destruct (_ && _); [|exact H]. cbn [fst maps set_bind a_bind]. apply ksorted_m_put. exact H.
+  - destruct (_ =? 8); exact H.
+  - destruct (_ && _); exact H.
+  - destruct (antispoof_prog (maps s) f) as [v mk]. exact H.
+  - exact H.
+Qed.
+
+Lemma after_ksorted ops : forall s, ksorted (a_bind (maps s)) -> ksorted (a_bind (maps (after s ops))).
+Proof.
+  induction ops as [|o ops IH]; intros s H; [exact H|]. unfold after. cbn [fold_left]. apply IH. apply step_ksorted. exact H.
+Qed.
+
+(* a removal takes effect exactly as written, after ANY control-plane history: the program finds no binding for
+   that MAC (so the default mode decides), and what it finds for any other MAC is unchanged *)
+Theorem remove_binding_takes_effect : forall ops mac, length mac = 6%nat ->
+  let s := after init ops in
+  binding_of (maps (after s [RemoveBinding mac])) mac = None /\
+  eff_mode (maps (after s [RemoveBinding mac])) mac = default_mode (maps s).
+Proof.
+  intros ops mac Hmac s.
+  assert (Hs : ksorted (a_bind (maps s))) by (apply after_ksorted; constructor).
+  assert (Hb : binding_of (maps (after s [RemoveBinding mac])) mac = None).
+  { unfold after at 1. cbn [fold_left step]. rewrite Hmac.
+    cbn [length N.of_nat Pos.of_succ_nat Pos.succ N.eqb Pos.eqb negb fst].
+    rewrite <- !(c_mac_key_go mac). change (c_mac_key mac) with (mac_key mac).
+    unfold binding_of. cbn [maps set_bind a_bind]. apply m_get_del_same. exact Hs. }
+  split; [exact Hb|]. unfold eff_mode. rewrite Hb.
+  unfold after at 1. cbn [fold_left step]. rewrite Hmac.
+  cbn [length N.of_nat Pos.of_succ_nat Pos.succ N.eqb Pos.eqb negb fst]. reflexivity.
+Qed.
+
+Theorem remove_binding_other_mac_untouched : forall s mac mac',
+  length mac = 6%nat -> length mac' = 6%nat -> wf_bytes mac -> wf_bytes mac' -> mac' <> mac ->
+  binding_of (maps (after s [RemoveBinding mac])) mac' = binding_of (maps s) mac'.
+Proof.
+  intros s mac mac' Hmac Hmac' Hw Hw' Hne.
+  assert (Hk : mac_key mac <> mac_key mac') by (intros E; apply Hne; symmetry; apply mac_key_injective; assumption).
+  unfold after. cbn [fold_left step]. rewrite Hmac.
+  cbn [length N.of_nat Pos.of_succ_nat Pos.succ N.eqb Pos.eqb negb fst].
+  rewrite <- !(c_mac_key_go mac). change (c_mac_key mac) with (mac_key mac).
+  unfold binding_of. cbn [maps set_bind a_bind]. apply m_get_del_other. exact Hk.
+Qed.
+
+(* ---- every value of subscriber_bindings is a 24-byte struct, after any history *)
+Definition vals24 (m : kvmap) : Prop := Forall (fun kv => length (snd kv) = 24%nat) m.
+
+Lemma m_put_vals24 m : forall k v, vals24 m -> length v = 24%nat -> vals24 (m_put m k v).
+Proof.
+  unfold vals24. induction m as [|[k0 v0] m IH]; intros k v H Hv; cbn [m_put].
+  - constructor; [exact Hv|constructor].
+  - inversion H as [|? ? H0 H1]; subst. destruct (bytes_eqb k k0).
+    + constructor; assumption.
+    + destruct (lex_leb k k0); [constructor; assumption|]. constructor; [exact H0|apply IH; assumption].
+Qed.
+Lemma m_del_vals24 m : forall k, vals24 m -> vals24 (m_del m k).
+Proof.
+  unfold vals24. induction m as [|[k0 v0] m IH]; intros k H; cbn [m_del]; [exact H|].
+  inversion H as [|? ? H0 H1]; subst. destruct (bytes_eqb k k0); [exact H1|]. constructor; [exact H0|apply IH; exact H1].
+Qed.
+Lemma m_get_vals24 m : forall k b, vals24 m -> m_get m k = Some b -> length b = 24%nat.
+Proof.
+  unfold vals24. induction m as [|[k0 v0] m IH]; intros k b H E; cbn [m_get] in E; [discriminate|].
+  inversion H as [|? ? H0 H1]; subst. destruct (bytes_eqb k k0); [inversion E; subst; exact H0|]. exact (IH k b H1 E).
+Qed.
+
+Lemma to4_len ip a : to4 ip = Some a -> length a = 4%nat.
+Proof.
+  unfold to4. destruct (N.of_nat (length ip) =? 4) eqn:E4.
+  - intros X. inversion X; subst. apply N.eqb_eq in E4. lia.
+  - unfold is_v4mapped. destruct (N.of_nat (length ip) =? 16) eqn:E16; cbn [andb]; [|discriminate].
+    destruct (bytes_eqb _ _); [|discriminate]. intros X. injection X as X. subst a. change (length (skipn 12 ip) = 4%nat). rewrite skipn_length. apply N.eqb_eq in E16. lia.
+Qed.
+Lemma to16_len ip a : to16 ip = Some a -> length a = 16%nat.
+Proof.
+  unfold to16. destruct (N.of_nat (length ip) =? 4) eqn:E4.
+  - intros X. injection X as X. subst a. cbn [app length]. apply N.eqb_eq in E4. lia.
+  - destruct (N.of_nat (length ip) =? 16) eqn:E16; [|discriminate]. intros X. inversion X; subst. apply N.eqb_eq in E16. lia.
+Qed.
+
+Lemma step_vals24 s o : vals24 (a_bind (maps s)) -> vals24 (a_bind (maps (fst (fst (step s o))))).
+Proof.
+  intros H. destruct o; cbn [step].
+  - exact H.
+  - destruct (negb _); [exact H|]. cbn [fst maps set_bind a_bind]. apply m_put_vals24; [exact H|].
+    destruct (to4 ip) as [ip4|] eqn:E; unfold mk_binding; rewrite !app_length; [rewrite rev_length, (to4_len _ _ E)|]; reflexivity.
+  - destruct (negb _); [exact H|]. cbn [fst maps set_bind a_bind]. apply m_put_vals24; [exact H|].
+    match goal with |- context [firstn 4 ?o] => set (old := o) end.
+    assert (Hold : length old = 24%nat).
+    { unfold old. destruct (m_get _ _) eqn:E; [exact (m_get_vals24 _ _ _ H E)|reflexivity]. }
+    destruct (to16 ip) as [ip6|] eqn:E; rewrite !app_length, firstn_length, Hold; [rewrite (to16_len _ _ E)|]; reflexivity.
+  - destruct (negb _); [exact H|]. cbn [fst maps set_bind a_bind]. apply m_del_vals24. exact H.
+  - exact H.
+  - destruct (to4 ip); [|exact H]. destruct (32 <? ones); exact H.
+  - destruct (N.of_nat (length mac) =? 6); cbn [andb]; [|exact H].
+    destruct (N.of_nat (length val) =? 24) eqn:E; [|exact H]. cbn [fst maps set_bind a_bind].
+    apply m_put_vals24; [exact H|]. apply N.eqb_eq in E. lia.
+  - destruct (_ =? 8); exact H.
+  - destruct (_ && _); exact H.
+  - destruct (antispoof_prog (maps s) f) as [v mk]. exact H.
+  - exact H.
+Qed.
+
+Lemma after_vals24 ops : forall s, vals24 (a_bind (maps s)) -> vals24 (a_bind (maps (after s ops))).
+Proof.
+  induction ops as [|o ops IH]; intros s H; [exact H|]. unfold after. cbn [fold_left]. apply IH. apply step_vals24. exact H.
+Qed.
+
+(* strict IPv6 through the manager, FULL: after any control-plane history, AddBindingV6(mac, a) under a strict manager
+   makes the program forward an IPv6 frame from mac iff its source is a *)
+Theorem v6_binding_takes_effect : forall ops mac ip6 f src,
+  length mac = 6%nat -> length ip6 = 16%nat -> mgr_mode (after init ops) = MODE_STRICT -> v6_frame f mac src ->
+  (forwards (maps (after (after init ops) [AddBindingV6 mac ip6])) f <-> src = ip6).
+Proof.
+  intros ops mac ip6 f src Hmac H6 Hmode Hf. set (s := after init ops) in *.
+  assert (Hv : vals24 (a_bind (maps s))) by (apply after_vals24; constructor).
+  unfold after at 1. cbn [fold_left step]. rewrite Hmac.
+  cbn [length N.of_nat Pos.of_succ_nat Pos.succ N.eqb Pos.eqb negb fst].
+  rewrite <- !(c_mac_key_go mac). change (c_mac_key mac) with (mac_key mac).
+  match goal with |- context [firstn 4 ?o] => set (old := o) end.
+  assert (Hold : length old = 24%nat).
+  { unfold old. destruct (m_get _ _) eqn:E; [exact (m_get_vals24 _ _ _ Hv E)|reflexivity]. }
+  unfold to16. rewrite H6. cbn [N.of_nat Pos.of_succ_nat Pos.succ N.eqb Pos.eqb]. rewrite Hmode.
+  cbn [maps set_bind a_bind a_cfg a_ranges].
+  destruct old as [|o0 [|o1 [|o2 [|o3 orest]]]]; try discriminate Hold.
+  do 16 (destruct ip6 as [|? ip6]; [discriminate|]). destruct ip6; [|discriminate].
+  cbn [firstn app].
+  match goal with |- forwards {| a_cfg := _; a_bind := m_put ?mm ?k ?v; a_ranges := _ |} _ <-> _ =>
+    set (v2 := v); set (m' := {| a_cfg := a_cfg (maps s); a_bind := m_put mm k v2; a_ranges := a_ranges (maps s) |}) end.
+  assert (Hb : binding_of m' mac = Some v2) by (unfold binding_of, m'; cbn [a_bind]; apply m_get_put).
+  assert (He : eff_mode m' mac = MODE_STRICT) by (unfold eff_mode; rewrite Hb; reflexivity).
+  rewrite (strict_iff_equal_v6 m' f mac src Hf He). rewrite Hb. split.
+  - intros (b' & Hb' & _ & Hs). inversion Hb'; subst b'. rewrite Hs. reflexivity.
+  - intros ->. exists v2. repeat split; cbn; discriminate.
+Qed.
+
+(* strict IPv4 through the manager, exactly as coded (K18a for EVERY address): the admitted source is the
+   byte-reversed address *)
+Theorem binding_effect_as_coded : forall s mac ip f src,
+  length mac = 6%nat -> length ip = 4%nat -> mgr_mode s = MODE_STRICT -> v4_frame f mac src ->
+  (forwards (maps (after s [AddBinding mac ip])) f <-> src = rev ip).
+Proof.
+  intros s mac ip f src Hmac Hip Hmode Hf.
+  destruct ip as [|a [|b [|c [|d [|]]]]]; try discriminate.
+  unfold after. cbn [fold_left step]. rewrite Hmac. cbn [length N.of_nat Pos.of_succ_nat Pos.succ N.eqb Pos.eqb negb].
+  cbn [to4 length N.of_nat Pos.of_succ_nat Pos.succ N.eqb Pos.eqb rev app fst]. rewrite Hmode.
+  rewrite <- !(c_mac_key_go mac). change (c_mac_key mac) with (mac_key mac).
+  set (v := mk_binding [d; c; b; a] zero16 1 0 MODE_STRICT).
+  set (m' := maps (set_bind s (m_put (a_bind (maps s)) (mac_key mac) v))).
+  assert (Hb : binding_of m' mac = Some v) by (unfold binding_of, m'; cbn [maps set_bind a_bind]; apply m_get_put).
+  assert (He : eff_mode m' mac = MODE_STRICT) by (unfold eff_mode; rewrite Hb; reflexivity).
+  rewrite (strict_iff_equal_v4 m' f mac src Hf He). rewrite Hb. split.
+  - intros (b' & Hb' & _ & Hs). inversion Hb'; subst b'. rewrite Hs. reflexivity.
+  - intros ->. exists v. repeat split. cbn. discriminate.
+Qed.
+
+(* ---- modes through the manager *)
+(* SetMode takes effect exactly as written: the default mode the program applies to senders without a binding, and
+   the mode the manager writes into bindings from then on *)
+Theorem set_mode_takes_effect : forall s m mac, binding_of (maps s) mac = None ->
+  eff_mode (maps (after s [SetMode m])) mac = N.land m 255 /\ mgr_mode (after s [SetMode m]) = N.land m 255.
+Proof.
+  intros s m mac H. unfold after. cbn [fold_left step fst]. unfold eff_mode, binding_of in *. cbn [maps a_bind a_cfg mgr_mode].
+  rewrite H. split; reflexivity.
+Qed.
+
+(* "in log-only mode it is always forwarded", through the control plane: after SetMode(log-only) every frame of every
+   sender without a binding is forwarded - any length, any ethertype *)
+Theorem log_only_default_forwards_unbound : forall s f,
+  (forall mac, rd f 6 6 = Some mac -> binding_of (maps s) mac = None) -> forwards (maps (after s [SetMode 3])) f.
+Proof.
+  intros s f H. apply (mode_forwards_all _ f MODE_LOG_ONLY); [left; reflexivity|].
+  intros mac Hm. destruct (set_mode_takes_effect s 3 mac (H mac Hm)) as [E _]. exact E.
+Qed.
+
+(* the mode in force for a subscriber is the manager's mode at the time its binding was written *)
+Theorem add_binding_mode : forall s mac ip, length mac = 6%nat ->
+  eff_mode (maps (after s [AddBinding mac ip])) mac = mgr_mode s.
+Proof.
+  intros s mac ip Hmac. unfold after. cbn [fold_left step]. rewrite Hmac.
+  cbn [length N.of_nat Pos.of_succ_nat Pos.succ N.eqb Pos.eqb negb fst].
+  rewrite <- !(c_mac_key_go mac). change (c_mac_key mac) with (mac_key mac).
+  unfold eff_mode, binding_of. cbn [maps set_bind a_bind]. rewrite m_get_put.
+  destruct (to4 ip) as [ip4|] eqn:E; [|reflexivity].
+  pose proof (to4_len _ _ E) as Hl. destruct ip4 as [|a [|b [|c [|d [|]]]]]; try discriminate Hl. reflexivity.
+Qed.
+
+Theorem add_binding_v6_mode : forall ops mac ip, length mac = 6%nat ->
+  eff_mode (maps (after (after init ops) [AddBindingV6 mac ip])) mac = mgr_mode (after init ops).
+Proof.
+  intros ops mac ip Hmac. set (s := after init ops).
+  assert (Hv : vals24 (a_bind (maps s))) by (apply after_vals24; constructor).
+  unfold after at 1. cbn [fold_left step]. rewrite Hmac.
+  cbn [length N.of_nat Pos.of_succ_nat Pos.succ N.eqb Pos.eqb negb fst].
+  rewrite <- !(c_mac_key_go mac). change (c_mac_key mac) with (mac_key mac).
+  match goal with |- context [firstn 4 ?o] => set (old := o) end.
+  assert (Hold : length old = 24%nat).
+  { unfold old. destruct (m_get _ _) eqn:E; [exact (m_get_vals24 _ _ _ Hv E)|reflexivity]. }
+  unfold eff_mode, binding_of. cbn [maps set_bind a_bind]. rewrite m_get_put.
+  do 24 (destruct old as [|? old]; [discriminate Hold|]). destruct old; [|discriminate Hold].
+  destruct (to16 ip) as [ip6|] eqn:E; [|reflexivity].
+  pose proof (to16_len _ _ E) as Hl.
+  do 16 (destruct ip6 as [|? ip6]; [discriminate Hl|]). destruct ip6; [|discriminate Hl]. reflexivity.
 Qed.
